@@ -160,6 +160,22 @@ PARAM_KEYS = ["vo", "vdrop", "ig", "iq", "rs", "rt", "eff", "ii", "pwr", "iis", 
 LIMIT_KEYS = ["vi", "vo", "vd", "ii", "io", "pi", "po", "pl", "tr", "tp"]
 
 
+class _Fake:
+    def __init__(self, name, lineno):
+        self.target = ast.Name(id=name, ctx=ast.Store())
+        self.lineno = lineno
+
+
+def append_of(x):
+    """(list name, appended expression) of `l += [e]` / `l.append(e)`, else None"""
+    if isinstance(x, ast.AugAssign) and isinstance(x.target, ast.Name) and isinstance(x.op, ast.Add) and isinstance(x.value, ast.List) and len(x.value.elts) == 1:
+        return x.target.id, x.value.elts[0]
+    if isinstance(x, ast.Expr) and isinstance(x.value, ast.Call) and isinstance(x.value.func, ast.Attribute) and x.value.func.attr == "append" \
+            and isinstance(x.value.func.value, ast.Name) and len(x.value.args) == 1:
+        return x.value.func.value.id, x.value.args[0]
+    return None
+
+
 def config_reports(model, rep, r):
     rel = model.rel("system")
     fn = model.own_method("System", "_pars_and_limits")
@@ -168,8 +184,10 @@ def config_reports(model, rep, r):
     where = "%s:%d" % (rel, fn.lineno)
     var_key = {}     # list variable -> ("param"|"limit", key)
     for x in ast.walk(fn):
-        if isinstance(x, ast.AugAssign) and isinstance(x.target, ast.Name) and isinstance(x.value, ast.List) and len(x.value.elts) == 1:
-            e = x.value.elts[0]
+        tgt_e = append_of(x)
+        if tgt_e is not None:
+            tname, e = tgt_e
+            x = _Fake(tname, x.lineno)
             if isinstance(e, ast.Subscript) and isinstance(e.slice, ast.Constant) and isinstance(e.value, ast.Name):
                 var_key.setdefault(x.target.id, []).append(("param", e.slice.value))
             elif isinstance(e, ast.Call) and ast.unparse(e.func) == "self._filt_lim" and len(e.args) == 2 and isinstance(e.args[1], ast.Constant):
@@ -212,8 +230,10 @@ def config_reports(model, rep, r):
     for x in ast.walk(fn):
         if isinstance(x, ast.If) and ast.unparse(x.test) in (P_, L_):
             kind = "param" if ast.unparse(x.test) == P_ else "limit"
-            for y in ast.walk(ast.Module(body=x.body, type_ignores=[])):
-                if isinstance(y, ast.AugAssign) and isinstance(y.target, ast.Name) and y.target.id in var_key and var_key[y.target.id][0][0] != kind:
+            for y0 in ast.walk(ast.Module(body=x.body, type_ignores=[])):
+                ap = append_of(y0)
+                y = _Fake(ap[0], y0.lineno) if ap else None
+                if y is not None and y.target.id in var_key and var_key[y.target.id][0][0] != kind:
                     ok = False
                     rep.violation("R5", "system.System._pars_and_limits", "%s:%d" % (rel, y.lineno), "a %s column is filled under the '%s' switch" % (var_key[y.target.id][0][0], ast.unparse(x.test)), "switch mismatch")
         elif isinstance(x, ast.If) and any(n_ in (P_, L_) for n_ in {z.id for z in ast.walk(x.test) if isinstance(z, ast.Name)}):
@@ -275,9 +295,11 @@ def config_reports(model, rep, r):
                 continue
             branches += 1
             # in this branch the only non-'' appends go to the key's column and read params[key] / the phase table
-            for x in ast.walk(ast.Module(body=iff.body, type_ignores=[])):
-                if isinstance(x, ast.AugAssign) and isinstance(x.target, ast.Name) and isinstance(x.value, ast.List):
-                    v = ast.unparse(x.value.elts[0]).replace('"', "'")
+            for x0 in ast.walk(ast.Module(body=iff.body, type_ignores=[])):
+                ap = append_of(x0)
+                if ap:
+                    x = _Fake(ap[0], x0.lineno)
+                    v = ast.unparse(ap[1]).replace('"', "'")
                     if v == "''":
                         continue
                     pv_ok = v.startswith("self._phase_lkup[%s][" % NV) and v.endswith("]")
